@@ -11,6 +11,11 @@ Decided (structural, every accepted policy):
         preceded by define_label(arm_start) and followed by compile_match_arm_epilogue (End,
         Jump(end)) before the next arm's label.
  R3 K7  VM: Branch transfers control only when the popped bool is true; Jump unconditionally.
+ R4 K3  the instruction stream is append-only while it is being generated: labels are bound to addresses
+        (define_label(l, self.wp)), so nothing may remove, insert or reorder instructions once emitted - the
+        only writers of `progmem` are append_instruction (push) and the in-place target rewrite of
+        resolve_targets, and `wp` is stored only by append_instruction. (A peephole that pops an emitted
+        instruction shifts every label already defined at the current address into the following region.)
 Not decided: nothing structural is left; the residual assumption is that the VM executes only what
 the program counter reaches (R3 + C25)."""
 from rules.core import emit, pat
@@ -20,8 +25,35 @@ CRATES = ["aranya_policy_compiler", "aranya_policy_ast", "aranya_policy_vm", "ar
 CS = "aranya_policy_compiler::compile::CompileState::"
 
 
+SHRINK = {"pop", "truncate", "remove", "insert", "swap_remove", "clear", "drain", "retain", "retain_mut", "split_off", "dedup", "dedup_by", "dedup_by_key",
+          "swap", "reverse", "sort", "sort_by", "sort_by_key", "rotate_left", "rotate_right", "splice", "append", "extend", "resize", "set_len", "take", "replace"}
+
+
+def append_only_rule(F, rep):
+    fns = [f for f in F.fns if f.crate == "aranya_policy_compiler" and not f.derived and "/tests" not in f.file and not f.file.endswith("tests.rs")]
+    bad = []
+    pushes = set()
+    for f in fns:
+        for c in f.calls:
+            if not c.args or c.args[0].place is None:
+                continue
+            if c.name in SHRINK | {"push"} and f.derives_from_field(c.args[0], "progmem"):
+                if c.name == "push":
+                    pushes.add((f.root or f.path).split("::")[-1])
+                else:
+                    bad.append("%s calls %s on progmem (%s)" % ((f.root or f.path).split("::")[-1], c.name, f.site(c.line)))
+        for st in f.field_stores("wp"):
+            if (f.root or f.path).split("::")[-1] != "append_instruction":
+                bad.append("%s stores wp (%s)" % ((f.root or f.path).split("::")[-1], f.site(st.line)))
+    rep.check(not bad and pushes == {"append_instruction"}, "progmem|append-only", "K3 who-may-write",
+              "progmem grows only through append_instruction (push); no compiler function removes, inserts or reorders emitted instructions, and wp is stored only there",
+              "the instruction stream is rewritten after emission: %s - labels already bound to the current address (e.g. the end label of a `&&` / `||` / `if` operand) "
+              "then point into the following region, so an untaken branch can be entered" % "; ".join(bad or ["push outside append_instruction: %s" % sorted(pushes)]))
+
+
 def run(F, rep, tier):
     rep.explanation = __doc__
+    append_only_rule(F, rep)
     cte = F.fn(CS + "compile_typed_expression")
     cut = emit.err_edges(cte)
     ek = [x for x in cte.discr_switches("thir::ExprKind")]
